@@ -19,6 +19,7 @@ import (
 	"verif/harness/internal/c12"
 	"verif/harness/internal/c13"
 	"verif/harness/internal/c14"
+	"verif/harness/internal/c17"
 	"verif/harness/internal/c19"
 	"verif/harness/internal/c20"
 	"verif/harness/internal/cancel"
@@ -152,6 +153,9 @@ func main() {
 	case "C14":
 		res.Rule = "rounds of a mixed workload on one connection (requests and responses of 1 B..300 kB, notifications, cancels, streams, reverse calls, pings every 2-3 ms on both ends, a reconnect in odd rounds) with seed-driven delays inside every hooked section; per round: every connection's write-lock trace replayed through the model, every wire frame checked; distinct = round (seed); every round is non-trivial"
 		err = c14.Run(d, res, *seed, thorough)
+	case "C17":
+		res.Rule = "(ping, timeout) pairs satisfying ping < timeout/2 x the server's own ping interval {library default 5 s, disabled, same as the client's}: a call lasting 3 timeouts, an idle period of 2 timeouts, short calls — exactly one connection may be accepted; and silent-peer runs (blackhole while idle / during a call): the pending call must fail with the typed connection error and a redial must start within 4 timeouts + 100 ms; the timed hook trace (activity, renewals, read failures) is replayed through the model's acceptor; distinct = (pair, server ping | when)"
+		err = c17.Run(d, res, *seed, thorough)
 	case "C19":
 		res.Rule = "exhaustive: 10 default sets x 10 caller sets x {attached, not} x 3 required permissions x 2 method shapes through the real PermissionedProxy, and 14 Authorization header forms x 6 token query forms through the real auth.Handler; every case is distinct and non-trivial (a permission decision is taken)"
 		err = c19.Run(d, res)
